@@ -288,6 +288,7 @@ func RunRequest(t *testing.T, rq *Request) *ReqOutcome {
 			out.Elapsed = time.Since(begin)
 			w.mu.Lock()
 			w.Returned = true
+			w.finished.Store(true)
 			w.mu.Unlock()
 			if rq.ReadAfter && out.Res != nil && !rq.RealTime {
 				b1, _ := json.Marshal(out.Res)
